@@ -565,3 +565,103 @@ TRUSTED = ["exact-rational model of ckb-rational (not cross-checked against the 
 LEVEL_TEXT = "The since-related clauses of C04 are decided for all encodings and contexts by SMT over the real MIR; every other clause of C04 is outside and not claimed."
 LEVEL_NOTE = "Partial claim (since semantics + commit position). Liveness, deps, scripts, capacity: outside."
 TECHNIQUE = "symbolic execution of rustc MIR -> integer-theory SMT (cvc5 + z3); rationals as integer pairs"
+
+
+def m9_pool_and_overlay_cell_status(S):
+    """where a pooled transaction's inputs are resolved: `PoolCell::cell` / `is_live` (tx-pool/src/pool_cell.rs) and the overlay combinators of util/types/src/core/cell.rs.
+    A cell spent by a pooled transaction is Dead (unless the lookup is made for a replacement, rbf); otherwise an output created by a pooled transaction is Live with that output,
+    its data and the REQUESTED out-point; anything else is Unknown to the pool; the checker answers the same three ways.  An overlay answers with the overlay's verdict when it
+    knows the cell (Live or Dead) and asks the underlying provider, with the same out-point, only when the overlay does not know it."""
+    from mir2smt.session_extra import extra_session
+    ob = "C04.m9"
+    S2 = extra_session(S, ["ckb-constant", "ckb-occupied-capacity-core", "ckb-types", "ckb-tx-pool"])
+    try:
+        _m9_body(S2, ob)
+    finally:
+        S2.finish()
+
+
+def _m9_body(S2, ob):
+    variants = None
+    src = open(os.path.join(os.environ.get("VERIF_REPO", "/repo"), "util/types/src/core/cell.rs")).read()
+    m_ = re.search(r"pub enum CellStatus\s*\{(.*?)\n\}", src, re.S)
+    variants = [re.match(r"\s*(\w+)", l).group(1) for l in re.sub(r"///[^\n]*", "", m_.group(1)).split("\n") if re.match(r"\s*[A-Z]\w*", l)]
+    if sorted(variants) != ["Dead", "Live", "Unknown"]:
+        raise Inconclusive(f"CellStatus variants: {variants}")
+    vi = {v: i for i, v in enumerate(variants)}
+
+    def nm(ex, v):
+        v = deref(ex, v) if ex is not None else v
+        return getattr(v, "name", None) or type(v).__name__
+    for short in ("cell", "is_live"):
+        f = [x for x in S2.prog.funcs if x.kind == "fn" and x.short == short and "tx-pool/src/pool_cell.rs" in x.name]
+        if len(f) != 1:
+            raise Inconclusive(f"PoolCell::{short}: {len(f)} candidates")
+        ctx = S2.ctx()
+        ctx.uninterpreted_unknown_calls = True
+        rbf, spent, created = ctx.bool("rbf_lookup"), ctx.bool("spent_by_a_pooled_transaction"), ctx.bool("created_by_a_pooled_transaction")
+        asked = []
+        ctx.env = [
+            (E.rx(r"Edges::get_input_ref$"), lambda ex, c, a, d: (asked.append(("input_ref", nm(ex, a[1]))), mk_option(spent.t, ex.ctx.ref_to(OpaqueV("spender", "ProposalShortId")), d))[1]),
+            (E.rx(r"PoolMap::get_output_with_data$"), lambda ex, c, a, d: (asked.append(("output", nm(ex, a[1]))), mk_option(created.t, AggV((OpaqueV("pooled_output", "CellOutput"), OpaqueV("pooled_data", "Bytes")), "(CellOutput, Bytes)"), d))[1]),
+            (E.rx(r"CellMetaBuilder::from_cell_output$"), lambda ex, c, a, d: OpaqueV("meta{" + nm(ex, a[0]) + "," + nm(ex, a[1]), d)),
+            (E.rx(r"CellMetaBuilder::out_point$"), lambda ex, c, a, d: OpaqueV(nm(ex, a[0]) + ",out_point=" + nm(ex, a[1]), d)),
+            (E.rx(r"CellMetaBuilder::build$"), lambda ex, c, a, d: OpaqueV(nm(ex, a[0]) + "}", d)),
+            (E.rx(r"CellStatus::live_cell$"), lambda ex, c, a, d: EnumV(vi["Live"], ((vi["Live"], (a[0],)),), "CellStatus")),
+            (E.rx(r"as (ToOwned|Clone)>::(to_owned|clone)$"), lambda ex, c, a, d: OpaqueV(nm(ex, a[0]), d)),
+        ]
+        me = ctx.ref_to(AggV((ctx.ref_to(OpaqueV("pool_map", "PoolMap")), rbf), "PoolCell"))
+        args = [me, ctx.ref_to(OpaqueV("asked_out_point", "OutPoint"))] + ([BoolV(True)] if short == "cell" else [])
+        ps = S2.run(ctx, f[0], args)
+        S2.prove(ctx, ob, f"pool_{short}_no_panic", [], T.not_(cond_of(panics(ps))))
+        dead = T.and_(T.not_(rbf.t), spent.t)
+        live = T.and_(T.not_(dead), created.t)
+        rs = returns(ps)
+        if short == "cell":
+            is_v = lambda name: T.or_(*[T.and_(p.cond(), T.eq(p.value.disc, vi[name]) if not isinstance(p.value.disc, int) else (p.value.disc == vi[name])) for p in rs if isinstance(p.value, EnumV)])
+            S2.prove(ctx, ob, "pool_cell_dead_iff_spent_in_the_pool_and_not_an_rbf_lookup", [], T.iff(is_v("Dead"), dead))
+            S2.prove(ctx, ob, "pool_cell_live_iff_not_dead_and_created_in_the_pool", [], T.iff(is_v("Live"), live))
+            S2.prove(ctx, ob, "pool_cell_unknown_otherwise", [], T.iff(is_v("Unknown"), T.and_(T.not_(dead), T.not_(created.t))))
+            metas = {nm(None, p.value.payload(vi["Live"])[0]) for p in rs if isinstance(p.value, EnumV) and p.value.disc == vi["Live"]}
+            S2.prove(ctx, ob, "pool_cell_live_meta_is_the_pooled_output_with_its_data_and_the_requested_out_point", [], bool(metas == {"meta{pooled_output,pooled_data,out_point=asked_out_point}"}), extra={"note": str(metas)})
+        else:
+            some = lambda b_: T.or_(*[T.and_(p.cond(), bool(isinstance(p.value, EnumV) and p.value.disc == 1 and isinstance(p.value.payload(1)[0], BoolV) and p.value.payload(1)[0].t is b_)) for p in rs])
+            none = T.or_(*[p.cond() for p in rs if isinstance(p.value, EnumV) and p.value.disc == 0])
+            S2.prove(ctx, ob, "pool_is_live_answers_false_true_unknown_under_the_same_conditions", [], T.and_(T.iff(some(False), dead), T.iff(some(True), live), T.iff(none, T.and_(T.not_(dead), T.not_(created.t)))))
+        S2.prove(ctx, ob, f"pool_{short}_lookups_are_about_the_requested_out_point", [], bool(asked and all(n == "asked_out_point" for _, n in asked)), extra={"note": str(asked)})
+    # ---------------- overlays
+    fo = [x for x in S2.prog.funcs if x.kind == "fn" and x.short == "cell" and "util/types/src/core/cell.rs" in x.name and len(x.params) == 3 and "OverlayCellProvider" in x.params[0][1]]
+    if len(fo) != 1:
+        raise Inconclusive(f"OverlayCellProvider::cell: {len(fo)} candidates")
+    ctx = S2.ctx()
+    ctx.uninterpreted_unknown_calls = True
+    od = ctx.int("overlay_verdict", "u8")
+    ud = ctx.int("underlying_verdict", "u8")
+    ctx.add_side(T.le(od.t, 2)); ctx.add_side(T.le(ud.t, 2))
+    asked = []
+
+    def provider(tag, dsc):
+        def h(ex, c, a, d):
+            asked.append((tag, nm(ex, a[1]), list(ex.pc)))
+            return EnumV(dsc.t, ((vi["Live"], (OpaqueV(tag + "_meta", "CellMeta"),)),), "CellStatus")
+        return h
+    ctx.env = [(E.rx(r"<A as CellProvider>::cell$"), provider("overlay", od)), (E.rx(r"<B as CellProvider>::cell$"), provider("underlying", ud))]
+    me = ctx.ref_to(AggV((ctx.ref_to(OpaqueV("overlay", "A")), ctx.ref_to(OpaqueV("underlying", "B"))), "OverlayCellProvider"))
+    ps = S2.run(ctx, fo[0], [me, ctx.ref_to(OpaqueV("asked_out_point", "OutPoint")), BoolV(True)])
+    S2.prove(ctx, ob, "overlay_no_panic", [], T.not_(cond_of(panics(ps))))
+    res = merged(ps, lambda v: v.disc if isinstance(v, EnumV) else None)
+    unk = T.eq(od.t, vi["Unknown"])
+    S2.prove(ctx, ob, "overlay_verdict_wins_when_it_knows_the_cell_else_the_underlying_provider_decides", [], T.eq(res, T.ite(unk, ud.t, od.t)))
+    und = [(n, pc) for t, n, pc in asked if t == "underlying"]
+    S2.prove(ctx, ob, "underlying_provider_is_asked_iff_the_overlay_does_not_know_the_cell_with_the_same_out_point", [],
+             T.and_(T.iff(T.or_(*[T.and_(*pc) for _, pc in und]) if und else False, unk), bool(all(n == "asked_out_point" for _, n, _ in asked))))
+    live_src = []
+    for p in returns(ps):
+        v = p.value
+        pay = v.payload(vi["Live"]) if isinstance(v, EnumV) else None
+        if pay:
+            live_src.append(T.implies(T.and_(p.cond(), T.eq(res, vi["Live"])), bool(nm(None, pay[0]) == ("overlay_meta" if not any(t == "underlying" and all(str(x) in [str(y) for y in p.pc] for x in pc) for t, _, pc in asked) else "underlying_meta"))))
+    S2.prove(ctx, ob, "live_cell_meta_comes_from_the_provider_that_answered", [], T.and_(*live_src) if live_src else True)
+
+
+OBLIGATIONS = OBLIGATIONS + [m9_pool_and_overlay_cell_status]
